@@ -84,3 +84,52 @@ def _stmt_of(fn_node, node):
         if isinstance(st, ast.stmt) and any(x is node for x in ast.walk(st)) and not isinstance(st, (ast.FunctionDef, ast.If, ast.For, ast.While, ast.With, ast.Try)):
             return st
     return node
+
+
+# ---------------------------------------------------------------------------------------------------------------------
+# scalar-or-vector parameters: `amount: Union[float, VectorType]` is told apart by a type test. `isinstance(x, float) or
+# isinstance(x, int)` is False for numpy's own scalars other than float64 (np.int64 from an integer array, np.float32), which
+# then fall into the vector branch where a 0-d array is broadcast to (a, a, a): the extrusion runs along the space diagonal
+# instead of the normal. A test by shape (np.ndim / np.isscalar) or against the numeric tower (numbers.Real, np.number) is complete.
+SCALAR_COMPLETE = ("isscalar", "ndim", "Real", "Number", "number", "integer", "floating", "generic")
+
+
+def scalar_dispatch_rule(repo: Repo, prop: str, rule_id: str, module_prefixes: Tuple[str, ...] = ("construct.",), floor: int = 3) -> RuleRun:
+    from .model import attr_chain
+
+    r = RuleRun(prop, rule_id, floor=floor, what="a parameter that may be a number or a vector is told apart by a test every scalar passes (np.ndim / np.isscalar / numbers.Real / np.number) - not by isinstance(x, float) or isinstance(x, int), which numpy's int64 / float32 scalars fail")
+    n = 0
+    for fn in sorted(repo.all_functions(), key=lambda f_: f_.qualname):
+        short = fn.module.name[len("classy_blocks.") :] if fn.module.name.startswith("classy_blocks.") else fn.module.name
+        if not any(short.startswith(p) for p in module_prefixes):
+            continue
+        both = set()
+        for a in fn.node.args.args:
+            ann = ast.unparse(a.annotation) if a.annotation is not None else ""
+            if "Union" in ann and "float" in ann and any(t in ann for t in ("VectorType", "PointType")):
+                both.add(a.arg)
+        if not both:
+            continue
+        for st in ast.walk(fn.node):
+            if not isinstance(st, ast.If):
+                continue
+            calls = [c for c in ast.walk(st.test) if isinstance(c, ast.Call) and c.args and isinstance(c.args[0], ast.Name) and c.args[0].id in both]
+            tests = [c for c in calls if (attr_chain(c.func) or "").split(".")[-1] in ("isinstance", "isscalar", "ndim", "shape", "size")]
+            if not tests:
+                continue
+            name = tests[0].args[0].id
+            n += 1
+            txt = ast.unparse(st.test)
+            complete = any(k in txt for k in SCALAR_COMPLETE)
+            r.check(
+                complete,
+                fn,
+                f"'{txt[:60]}' accepts every scalar",
+                f"{fn.qualname}: '{txt[:80]}' decides whether '{name}' is a number or a vector by its Python type: numpy's own scalars other than float64 (np.int64 taken from an integer array, np.float32) "
+                f"fail it and are treated as a vector - np.asarray of a 0-d value is broadcast to (a, a, a), so the entity is built along the space diagonal instead of the normal "
+                "(ExtrudedStack(grid, np.int64(3), 3): tier centres [1,1,0.5], [2,2,1.5], [3,3,2.5] instead of [.5,.5,.5], [.5,.5,1.5], [.5,.5,2.5])",
+                st.test,
+                key=f"dispatch:{name}",
+            )
+    r.require(n >= floor, f"only {n} scalar-or-vector type tests found")
+    return r
